@@ -25,6 +25,41 @@ func caseBytes(c zex.Case) []int {
 	return out
 }
 
+// useTables does what a harness built on the package may do with the tables: every exported method on the table
+// elements themselves, the returned slices overwritten (zexdoc masks the flag byte in its state image), private cases
+// appended to a table.  None of it may change the tables: they are dumped again afterwards.
+func useTables() {
+	for _, tab := range [][]zex.Case{zex.DocCases, zex.AllCases} {
+		for i := range tab {
+			c := &tab[i]
+			for _, s := range []*zex.Status{&c.BaseCase, &c.IncVec, &c.ShiftVec} {
+				b := s.Bytes()
+				for j := range b {
+					b[j] ^= 0xff
+				}
+				_ = s.String()
+				_ = s.OnesCount()
+			}
+			sm, cm := c.Maxes()
+			it := c.Iter()
+			for _, p := range [][2]uint64{{0, 0}, {sm, cm}, {1, 1}} {
+				st := it.Status(p[0], p[1])
+				b := st.Bytes()
+				for j := range b {
+					b[j] = 0x5a
+				}
+			}
+			d := []byte(c.Desc)
+			for j := range d {
+				d[j] = '#'
+			}
+		}
+	}
+	private := zex.Case{Desc: "private case", FlagMask: 0x12, Expect: 0xdeadbeef}
+	_ = append(zex.DocCases, private, private)
+	_ = append(zex.AllCases, private, private)
+}
+
 func cmdZexDump(args []string) {
 	fs := flag.NewFlagSet("zexdump", flag.ExitOnError)
 	doc := fs.String("doc", "", "zexdoc.cim")
@@ -58,5 +93,8 @@ func cmdZexDump(args []string) {
 	}
 	dump("doc", *doc, zex.DocCases)
 	dump("all", *all, zex.AllCases)
+	useTables()
+	dump("doc-used", *doc, zex.DocCases)
+	dump("all-used", *all, zex.AllCases)
 	fmt.Printf("zexdump: %d doc cases, %d all cases\n", len(zex.DocCases), len(zex.AllCases))
 }
